@@ -214,6 +214,32 @@ func (S06) RunTape(t *sim.Tape, st *sim.Stats, keepLog bool) *sim.Outcome {
 			return benign()
 		}
 		s.Go("loader", func() {
+			type keptNode struct {
+				n  datamodel.Node
+				fn string
+			}
+			var kept []keptNode
+			var keptRaw [][]byte
+			defer func() {
+				// what the loads handed out stays what it was, whatever was loaded afterwards:
+				// load the OTHER block by every function first, then look again
+				if len(kept)+len(keptRaw) > 0 && L2.Binary() != L.Binary() {
+					for fn := 0; fn < 4; fn++ {
+						doLoad(&lsys, fn, L2)
+					}
+				}
+				for _, k := range kept {
+					got, err := model.FromNode(k.n)
+					if err != nil || !model.Equal(got, wantV) {
+						o.Fail("returned-node-changed", codec.Name+" "+k.fn, "the node %s returned (verified against the link) reads differently after later loads: now %s, was %s (err %v)", k.fn, got, wantV, err)
+					}
+				}
+				for _, r := range keptRaw {
+					if !bytes.Equal(r, B) {
+						o.Fail("returned-raw-changed", codec.Name, "raw bytes a load returned (verified against the link) were changed by later loads")
+					}
+				}
+			}()
 			for fn := 0; fn < 4; fn++ {
 				s.Yield("op")
 				before := len(seam.Readers)
@@ -226,6 +252,14 @@ func (S06) RunTape(t *sim.Tape, st *sim.Stats, keepLog bool) *sim.Outcome {
 					}
 				}
 				outcomes[fn] = judgeLoad(o, st, codec, fnNames[fn], kindNames[kind], L, B, wantV, rd, res)
+				if outcomes[fn] == "ok" {
+					if res.node != nil {
+						kept = append(kept, keptNode{res.node, fnNames[fn]})
+					}
+					if res.raw != nil {
+						keptRaw = append(keptRaw, res.raw)
+					}
+				}
 				if rd != nil {
 					for _, off := range rd.ReadSizes {
 						offsets[off] = true
